@@ -97,6 +97,13 @@ def read(level, text, secret=SECRET, name=NAME):
         return dec[1] if dec[0] == name else ("wrong name", dec)
     if level == "jar":
         rq = Request({"ombott.request.cookies": CookieDict({name: text})})
+    elif level == "rewritten":
+        # a long-lived request object: it carried a genuine cookie (LAST_GENUINE, looked at once), has a listener on
+        # env_changed that looks at the cookies whenever the environ changes, and is then given the (tampered) header
+        rq = Request({"HTTP_COOKIE": name + '="' + LAST_GENUINE[0] + '"'})
+        rq.cookies
+        rq.on("env_changed", lambda *a: a[0].cookies)
+        rq["HTTP_COOKIE"] = name + '="' + text + '"'
     else:
         rq = Request({"HTTP_COOKIE": name + '="' + text + '"'})
     return rq.get_cookie(name, DEFAULT, secret=secret)
@@ -178,11 +185,15 @@ INT_OP_TEXT = {
 }
 
 
+LAST_GENUINE = [""]
+
+
 def scenario():
     """fresh stubs; two cookies signed with SECRET as an attacker may have observed them"""
     mac, pick = S.install()
     c = emit_signed(VALUE)
     c2 = emit_signed(OTHER_VALUE)
+    LAST_GENUINE[0] = c
     mac.signing = False
     return pick, c, c2, {c: (VALUE, pick.token(0)), c2: (OTHER_VALUE, pick.token(1))}
 
@@ -672,14 +683,15 @@ def queries(tier):
 
     # ---- forgery
     base = "cookie %r=%r signed with %r emitted by the real set_cookie under OracleHmac/TagPickle; " % (NAME, VALUE, SECRET)
-    for level in ("decode", "header"):
-        for op in INT_OPS:
+    for level in ("decode", "header", "rewritten"):
+        for op in (INT_OPS if level != "rewritten" or T else ["trunc", "splice"]):
             add("forge/%s/%s" % (op, level), make_int_op(op, level), base + INT_OP_TEXT[op] + "; read through " + level,
                 60, ["forged"] + ([] if op == "delete" else ["valid"]), config={"op": op, "level": level})
     regions = {"sig": (0, 26), "msg": (26, None)}          # '!' + 24 signature characters + '?' | payload
     char_ops = [(level, op, r) for level in ("jar", "header", "decode") for op in ("subst", "insert") for r in regions]
     if not T:       # the signature region through the header parser costs 90 CPU s per operator: thorough only
         char_ops = [x for x in char_ops if x[0] == "jar" or (x[0] == "header" and x[2] == "msg")]
+    char_ops += [("rewritten", "subst", "msg")] + ([("rewritten", "insert", "msg"), ("rewritten", "subst", "sig")] if T else [])
     for level, op, rname in char_ops:
         lo, hi = regions[rname]
         add("forge/%s-%s/%s" % (op, rname, level), make_char_op(op, level, lo, hi),
